@@ -2,6 +2,7 @@ package chk
 
 import (
 	"fmt"
+	"strings"
 
 	"golang.org/x/tools/go/ssa"
 )
@@ -13,7 +14,7 @@ func checkC02(c *Ctx, r *Report) {
 	r.Explanation = "W-SE: for every registered box type and every configuration of its discriminants, the symbolic number of bits EncodeSW writes on the decoded abstract structure equals 8*Size() as polynomials " +
 		"over the symbolic counts/lengths, and the header item carries Size() of the same box; T-WRAP: every Encode wrapper allocates exactly int(recv.Size()), encodes the same receiver into it, checks the error and writes sw.Bytes(); " +
 		"S-MEMBER: Size/Encode/EncodeSW of the composites (File, InitSegment, MediaSegment, Fragment) traverse the same members. " +
-		"T-LIVE: Size() of every box type that holds children depends on the Children it holds now (no cached size); W-NARROW: in the functions reachable from the size methods no product of two non-constant values is computed in 32 bits or fewer and only then widened. Decides agreement of the size function with the encoder per configuration; does not decide irregular boxes, numeric loop bounds, or idempotence of encodes that mutate state."
+		"L-MAKEAPPEND: no slice in package mp4 is made with a non-zero length and then only appended to (the decoded box would hold zero entries in front of the real ones, counted by Size() but not what the encoder writes); T-LIVE: Size() of every box type that holds children depends on the Children it holds now (no cached size); W-NARROW: in the functions reachable from the size methods no product of two non-constant values is computed in 32 bits or fewer and only then widened. Decides agreement of the size function with the encoder per configuration; does not decide irregular boxes, numeric loop bounds, or idempotence of encodes that mutate state."
 	wireAssumptions(r)
 	ruleWSE(c, r)
 	ruleTWRAP(c, r)
@@ -21,6 +22,12 @@ func checkC02(c *Ctx, r *Report) {
 		reportCodecPart(r, c, analyseCodec(c, sp), "size")
 	}
 	ruleSMEMBER(c, r)
+	if n := ruleMakeThenAppend(c, r, func(f *ssa.Function) bool { return strings.HasPrefix(SSAFuncName(f), "mp4.") }); n < 20 {
+		r.Undecided("L-MAKEAPPEND", "scope", "", "too few make() results stored found")
+	} else {
+		r.OK("L-MAKEAPPEND", "scope", "", fmt.Sprintf("%d slices made and stored in package mp4: none is made with a non-zero length and then only appended to", n))
+	}
+	requireFixture(r, "L-MAKEAPPEND", "makeThenAppend", func(fc *Ctx, s *Report) { ruleMakeThenAppend(fc, s, nil) })
 	if n := ruleLiveSize(c, r); n < 30 {
 		r.Undecided("T-LIVE", "scope", "", fmt.Sprintf("only %d container types found", n))
 	}
